@@ -57,9 +57,10 @@ ENGINES["syncobj"] = {
 
 ENGINES["client"] = {
     "pkg": "./harness/client",
-    "instr": ["tun/client:1"],
+    "instr": ["tun/client:2", "spec/tun:1", "util/acceptor:1"],
     "osredirect": "tun/client/config.go",
-    "inject": {"tun/client/zz_verif_export.go": "inject/client/zz_verif_export.go", "tun/client/ui/build/index.html": "inject/client/index.html"},
+    "inject": {"tun/client/zz_verif_export.go": "inject/client/zz_verif_export.go", "tun/client/ui/build/index.html": "inject/client/index.html",
+               "util/pipe/pipe_unix.go": "inject/pipe/pipe_unix.go"},
     "real": ["tun/client/config.go (NewConfig, validate, writeFile; its os import redirected to the simulated disk), gopkg.in/yaml.v3"],
     "stub": ["file system -> simfs in-memory disk with an operation log; embedded UI assets -> one placeholder file (they are not in the checkout)"],
 }
@@ -129,11 +130,12 @@ PROPS.update({
 
 PROPS.update({
     "C45": {"engine": "client", "level": "fault_enumeration", "quick": 400, "thorough": 20000},
+    "C44": {"engine": "client", "level": "exploration", "quick": 640, "thorough": 40000},
 })
 
 PROPS.update({
     "C25": {"engine": "ctl", "level": "exploration", "quick": 96, "thorough": 3000},
-    "C26": {"engine": "ctl", "level": "exploration", "quick": 160, "thorough": 6000},
+    "C26": {"engine": "ctl", "level": "exploration", "quick": 1600, "thorough": 60000},
     "C28": {"engine": "ctl", "level": "fault_enumeration", "quick": 48, "thorough": 1000},
     "C51": {"engine": "ctl", "level": "exploration", "quick": 96, "thorough": 3000},
     "C27": {"engine": "ctl", "level": "exploration", "quick": 96, "thorough": 3000},
@@ -358,7 +360,7 @@ def minimise(binp, prop, tier, engine, rec, viol, tmp, budget_s=150):
 
     def candidates(pl):
         # coarse to fine
-        for key in ("clients", "lookups", "faults"):
+        for key in ("clients", "lookups", "faults", "changes"):
             lst = pl.get(key) or []
             if not isinstance(lst, list):
                 continue
@@ -377,6 +379,10 @@ def minimise(binp, prop, tier, engine, rec, viol, tmp, budget_s=150):
             for i in range(len(ops)):
                 c = json.loads(json.dumps(pl)); del c["ops"][i]; yield c
         for ci, cl in enumerate(pl.get("clients") if isinstance(pl.get("clients"), list) else []):
+            if isinstance(cl, list):   # plain operation lists (client engine)
+                for k in range(len(cl)):
+                    c = json.loads(json.dumps(pl)); del c["clients"][ci][k]; yield c
+                continue
             ops = cl.get("ops") or []
             if len(ops) > 1:
                 for half in (ops[: len(ops) // 2], ops[len(ops) // 2:]):
@@ -475,6 +481,10 @@ def do_replay(binp, prop, tier, engine, path, tmp):
             same = r.get("trace_hash") == rp.get("trace_hash")
             print("replayed: %s class=%s trace_hash=%s (%s the recorded hash)" % (prop, v["class"], r.get("trace_hash"), "equals" if same else "DIFFERS from"))
             print(v["msg"][:2000])
+            ev = r.get("events") or []
+            if ev:
+                print("--- trace (last %d events)" % min(len(ev), 60))
+                print("\n".join(ev[-60:]))
             print("VIOLATION property=%s replay=%s" % (prop, path))
             return 1
     print("replay did not reproduce a violation of %s (classes seen: %s)" % (prop, [v["class"] for v in r.get("violations") or []]))
